@@ -79,6 +79,8 @@ def _gen_module(rng, name, cfg, others):
         "imports": [],
         # a legal non-UTF-8 source (PEP 263 cookie + a latin-1 byte): Griffe reads sources as UTF-8
         "latin1": rng.random() < cfg.get("p_latin1", 0.0),
+        # __all__ computed by a call that needs nothing but builtins (and has a side effect of its own)
+        "all_call": rng.random() < 0.12,
     }
     if others and rng.random() < 0.5:
         m["imports"].append(rng.choice(others))
@@ -194,6 +196,8 @@ def render_world(world):
                 lines.append(f"import {imp}")
         if world.get("pkgutil_init") and n in (PK, EXT):
             lines.append("__path__ = __import__('pkgutil').extend_path(__path__, __name__)")
+        if m.get("all_call"):
+            lines.append(f"__all__ = ['f', str(open('<ROOT>/sp0/sent/{n}.allcall', 'w').close() or 'K')]")
         lines += ["", "def f():", '    """doc"""', "    return 1", "", "class K:", "    x = 1", ""]
         rel = "/".join(n.split(".")) + ("/__init__.py" if n in pkgs else ".py")
         if m.get("latin1"):
